@@ -168,7 +168,11 @@ func (w *vC04World) current(name string, allowAbsent bool, maxFn int, anyValue b
 		cur.s = vC04Choice(name+".setter", 0, maxFn)
 		// the writable bit of an accessor record is not observable; goja leaves it at whatever the
 		// record had before it became an accessor (reachable: {x:1} -> defineProperty(get) keeps true)
+		// representation invariant (maintained by _defineOwnProperty since the fix of
+		// F-C04-accessor-to-data-stale-writable and by every literal/template producer): an accessor
+		// property never carries writable=true
 		cur.staleWritable = vNondetBool(name + ".staleWritable")
+		vAssume(!cur.staleWritable)
 		cur.repr = &valueProperty{accessor: true, writable: cur.staleWritable, enumerable: cur.e, configurable: cur.c,
 			getterFunc: w.fnOf(cur.g), setterFunc: w.fnOf(cur.s)}
 	}
@@ -454,6 +458,12 @@ func hC04Define(family int) {
 	vAssert("define:result-value", refImp(data, refC04ValueOK(ref.vsel, got.value == _undefined,
 		vC04SameValue(got.value, d.d.Value), vC04SameValue(got.value, cur.value))))
 	acc := refAnd(both, refAnd(got.kind == 2, ref.kind == 2))
+	// the representation invariant assumed for the pre-state is re-established (inductive step)
+	rawW := false
+	if p, isProp := val.(*valueProperty); isProp {
+		rawW = p.accessor && p.writable
+	}
+	vAssert("inv:accessor-never-writable", !rawW)
 	vAssert("define:result-getter", refImp(acc, got.g == ref.g))
 	vAssert("define:result-setter", refImp(acc, got.s == ref.s))
 }
